@@ -280,6 +280,7 @@ func runCase(rep *core.Report, c tcase, l sim.Layout, seed int64) {
 	// ---- the offered image ----
 	rnd := rand.New(rand.NewSource(seed))
 	var input []byte
+	truncKind := ""
 	inL := l
 	switch c.Input {
 	case "valid_rb":
@@ -294,8 +295,23 @@ func runCase(rep *core.Report, c tcase, l sim.Layout, seed int64) {
 		inL = sim.L0(2048)
 		input = flat(inL.ImageOf([]sim.Content{{V: 39, Sz: 2}, {V: 40}}))
 	case "truncated":
-		full := flat(l.ImageOf([]sim.Content{{V: 41, Sz: 2}, {V: 42}}))
-		input = full[:len(full)-int(l.PageSize)/2-rnd.Intn(int(l.PageSize)/4)]
+		// an image that is not all there, in one of four ways (by case number): cut inside its last page; cut
+		// exactly on a page boundary (whole pages missing); nothing but the 100-byte header; complete but with a
+		// header that announces zero pages
+		full := flat(l.ImageOf([]sim.Content{{V: 41, Sz: 3}, {V: 42}, {V: 43}}))
+		ps := int(l.PageSize)
+		switch seed % 4 {
+		case 0:
+			input = full[:len(full)-ps/2-rnd.Intn(ps/4)]
+		case 1:
+			input = full[:len(full)-ps*(1+rnd.Intn(2))]
+		case 2:
+			input = full[:100]
+		default:
+			input = append([]byte(nil), full...)
+			copy(input[28:32], []byte{0, 0, 0, 0})
+		}
+		truncKind = []string{"inside-page", "page-boundary", "header-only", "zero-page-count"}[seed%4]
 	case "garbage":
 		input = make([]byte, 3000+rnd.Intn(2000))
 		rnd.Read(input)
@@ -332,6 +348,9 @@ func runCase(rep *core.Report, c tcase, l sim.Layout, seed int64) {
 	rep.TracesValidated++
 	rep.Eval(4)
 	detail := map[string]any{"case": c, "layout": fmt.Sprintf("%s/%d", l.Name, l.PageSize), "import_error": fmt.Sprint(ierr), "exits": n1.Exits(), "before": before}
+	if truncKind != "" {
+		detail["truncation"] = truncKind
+	}
 	shape := c.Target + "/" + c.Input
 	if pn != nil {
 		detail["panic"] = pn.Value
